@@ -1,6 +1,7 @@
 import ZmqVerif.Lemmas.FQProgress
 import ZmqVerif.Lemmas.FQFair
 import ZmqVerif.Lemmas.FQReturns
+import ZmqVerif.Lemmas.FQWaker
 /-!
 # C06 — a waiting receiver is always woken, and no peer is starved
 
@@ -48,6 +49,20 @@ theorem C06_wake (ops : List Op) (k item : Nat) :
   exact ⟨fun hr => wake_on_arrive s hinv hp hn k item hr,
          fun hr => (wake_on_close s hinv hp hn k hr).1,
          fun hr => (wake_on_insert s hinv hp hn k hr).1⟩
+
+/-- The wake-up goes to the LATEST caller: `recv` calls may come from different tasks / futures
+(`Op.setWaker`: later polls use another waker), and an earlier call may have been abandoned while
+parked.  Whenever the receiver is parked and not notified, the arrival of data on a registered
+peer (or a new peer) wakes exactly the waker the most recent `poll_next` call was made with —
+never a waker left behind by an earlier call. -/
+theorem C06_wake_latest (ops : List Op) (k item : Nat) :
+    let s := ops.foldl step {}
+    s.pc = .parked → s.notified = false →
+      (s.reg k = .inMap → (step s (.arrive k item)).woken = s.woken ++ [s.polledW]) ∧
+      (s.reg k = .absent → (step s (.insert k)).woken = s.woken ++ [s.polledW]) := by
+  intro s hp hn
+  exact ⟨fun hr => wake_latest_on_arrive s (reachable_inv ops) (reachable_pubCur ops) hp hn k item hr,
+         fun hr => wake_latest_on_insert s (reachable_inv ops) (reachable_pubCur ops) hp hn k hr⟩
 
 /-- Progress: in any reachable state in which some registered peer has a complete message
 available, a `recv` that is (re-)polled completes — `Ready` with one more message — within
@@ -129,6 +144,11 @@ example : let s := [Op.insert 1, .arrive 1 7, .pollStart, .recvStep, .exhaust, .
 example : let s := [Op.insert 1, .arrive 1 7, .pollStart, .recvStep, .exhaust, .recvStep, .recvStep, .recvStep,
                     .pollStart, .recvStep, .recvStep, .recvStep].foldl step {}
     s.pc = .idle ∧ s.out = [(1, 7)] := by decide
+/-- non-vacuity of `C06_wake_latest`: poll with waker 1 (parks), abandon, poll with waker 2 (parks), data
+arrives: waker 2 is woken, waker 1 is not -/
+example : let s := [Op.insert 1, .setWaker 1, .pollStart, .recvStep, .recvStep, .recvStep, .recvStep,
+                    .setWaker 2, .pollStart, .recvStep, .arrive 1 7].foldl step {}
+    s.woken = [2] := by decide
 /-- non-vacuity of the parked hypothesis: `insert 1; poll` parks un-notified -/
 example : let s := [Op.insert 1, .pollStart, .recvStep, .recvStep, .recvStep, .recvStep].foldl step {}
     s.pc = .parked ∧ s.notified = false := by decide
